@@ -96,11 +96,16 @@ def build_py(run, prop=ID):
     build_commands(run, prop, E)
     build_send_response(run, prop, E)
     build_handle_rx(run, prop, E)
+    # the POWERON/POWEROFF side effects are power_event_handler's: its contract (the one the summary above assumes) is discharged here as well
+    from props import C12 as _C12
+    E2 = new_engine()
+    _C12.build_handler(run, prop, E2)
+    E.stats["paths"] += E2.stats["paths"]
     note_engine(run, E)
     run.assume("TRXC token model: numeric arguments are decimal integer literals (IntTok); non-numeric arguments belong to C14")
     run.assume("canonical command text: 'CMD ' + tokens joined by single spaces + NUL, tokens free of whitespace/NUL - the form trxcon emits "
                "(structured-string model of str.decode/startswith/strip/split/join/encode on that form is trusted)")
-    run.assume("power_event_handler, FakePM.measure used through their contracts (C12, this file)")
+    run.assume("power_event_handler, FakePM.measure used through their contracts, both discharged in this check (the handler's is shared with C12)")
     run.extra["py_paths_explored"] = E.stats["paths"]
 
 
@@ -485,6 +490,9 @@ def build_handle_rx(run, prop, E):
 
 def witness_py(o, model):
     t = dict(o.tag or {}) if isinstance(o.tag, dict) else {}
+    if t.get("what") == "handler":
+        from props import C12 as _C12
+        return _C12.witness(o, model)
     for i in range(4):
         t["arg%d" % (i + 1)] = mval(model, arg(i))
     for nme in list(STATE_FIELDS.values()) + ["_hdr_ver", "rsp_delay_ms", "_rx_freq", "_tx_freq"]:
@@ -504,6 +512,9 @@ def replay_py(payload):
     from contracts.py.native import native_trx, Recorder
     f = payload["inputs"]
     what = f.get("what")
+    if what == "handler":
+        from props import C12 as _C12
+        return _C12.replay(payload)
     if what == "cmd":
         t = native_trx()
         for nme in STATE_FIELDS.values():
